@@ -34,7 +34,9 @@ def run_case(ctx, case):
         rec.count("twin", "mixed-knot-types")
     curve = make_curve(U, P, W)
     before = curve_state(curve)
-    r = impl(lambda: curve.knot_insert(list(nodes)))
+    form = form_of(case)
+    rec.count("nodes-as", form)
+    r = impl(lambda: curve.knot_insert(as_form(nodes, form)))
     after = curve_state(curve)
     m = drv.call("curve.insert", *curve_args(U, P, W), nodes)
     if valid and nearpair and W is not None and r[0] != "ok":
